@@ -2,7 +2,7 @@
 From Coq Require Import Lia Permutation Sorted.
 Require Import Riti.model.Base Riti.model.Chars Riti.model.Split Riti.model.Rank Riti.model.Layout Riti.model.Phonetic
         Riti.model.FixedCompose Riti.model.FixedSuggest Riti.gen.Gen_Tables
-        Riti.proofs.Rank_Proof Riti.proofs.Phonetic_Proof Riti.proofs.C03_Proof Riti.proofs.Lists_Proof.
+        Riti.proofs.Rank_Proof Riti.proofs.Phonetic_Proof Riti.proofs.C03_Proof Riti.proofs.Lists_Proof Riti.proofs.Order_Proof.
 
 Section F.
 Variable Q : oracles.
@@ -171,5 +171,30 @@ Qed.
 Lemma ds_emoticon c buffer typed e :
   x_ansi c = false -> emoticon Q typed = Some e -> In e (map rstr (sort_ranks (ds_l3 c buffer typed))).
 Proof. intros Ha He. apply sorted_strs. unfold ds_l3. rewrite Ha, He. rewrite map_app, in_app_iff. right. left. reflexivity. Qed.
+
+
+(** Bengali names: exactly the emoji of the name, in table order, among the emoji of the sorted list *)
+Lemma ds_l2_no_emoji c buffer :
+  let l1 := dedup_ranks (RFirst (ds_word c buffer) :: search_dictionary Q (ds_word c buffer) (ds_word c buffer) (o_kar (x_opts c))) in
+  filter is_emoji (match ds_first c buffer, ds_last c buffer with [], [] => l1 | _, _ => map (wrap (ds_first c buffer) (ds_last c buffer)) l1 end) = [].
+Proof.
+  cbn zeta. set (l1 := dedup_ranks _).
+  assert (N1 : Forall (fun x => is_emoji x = false) l1).
+  { apply Forall_forall. intros x Hx. apply dedup_subset in Hx. destruct Hx as [<-|Hx]; [reflexivity|]. apply search_items in Hx. destruct Hx as (t & d & _ & _ & _ & ->). reflexivity. }
+  apply filter_none. destruct (ds_first c buffer), (ds_last c buffer); try exact N1;
+    apply Forall_forall; intros x Hx; apply in_map_iff in Hx; destruct Hx as [y [<- Hy]]; rewrite Forall_forall in N1; specialize (N1 y Hy);
+    destruct (wrap_class (ds_first c buffer) (ds_last c buffer) y) as (_ & B & _); destruct y; cbn in *; congruence.
+Qed.
+
+Lemma ds_names_in_table_order c buffer typed es :
+  x_ansi c = false -> emoticon Q typed = None -> emoji_bn Q (filter (fun ch => negb (ch =? ZWNJ)) (ds_word c buffer)) = Some es ->
+  filter is_emoji (sort_ranks (ds_l3 c buffer typed)) = emoji_ranked (ds_first c buffer) (ds_last c buffer) es 1.
+Proof.
+  intros Ha He Hn. unfold ds_l3. rewrite Ha, He, Hn.
+  pose proof (ds_l2_no_emoji c buffer) as N. cbn zeta in N.
+  match goal with |- filter is_emoji (sort_ranks (?l2 ++ ?em)) = _ =>
+    pose proof (emoji_in_table_order l2 (ds_first c buffer) (ds_last c buffer) es [] N eq_refl) as X end.
+  rewrite app_nil_r in X. exact X.
+Qed.
 
 End F.
